@@ -46,6 +46,23 @@ type Reply struct {
 	Stall bool
 }
 
+// piecewise hands over at most first octets on its first Read.
+type piecewise struct {
+	r     io.Reader
+	first int
+	done  bool
+}
+
+func (p *piecewise) Read(b []byte) (int, error) {
+	if !p.done {
+		p.done = true
+		if len(b) > p.first {
+			b = b[:p.first]
+		}
+	}
+	return p.r.Read(b)
+}
+
 type stalledBody struct{ done <-chan struct{} }
 
 func (b stalledBody) Read([]byte) (int, error) {
@@ -312,6 +329,12 @@ func (s *Server) RoundTrip(req *http.Request) (*http.Response, error) {
 	}
 	if rep.ReadErrAfter > 0 {
 		rd = &failingReader{r: rd, left: rep.ReadErrAfter}
+	}
+	s.mu.Lock()
+	fr := s.zone.FirstRead
+	s.mu.Unlock()
+	if fr > 0 {
+		rd = &piecewise{r: rd, first: fr}
 	}
 	if rep.Stall {
 		rd = stalledBody{req.Context().Done()}
